@@ -214,8 +214,11 @@ def nan_chunked(case, ctx):
     chunks = [raw[a:b] for a, b in zip(edges[:-1], edges[1:])]
     if any(any(x != x for x in c[1:-1]) and len(c) >= 3 and c[-1] == next((y for y in reversed(c[:-1]) if y == y), None) for c in chunks):
         ctx.label("nan_inside_trailing_plateau")
+    # the cleaned signal is fed in the corresponding chunks (chunk independence itself is C01)
+    clean_cuts = [sum(1 for i in keep if i < c) for c in cuts]
+    clean_chunks = [ch for ch in gs.split(sig, [c for c in clean_cuts if 0 < c < len(sig)]) if ch]
     for det in _rf.DETECTORS:
-        clean = _snap(det, sig)
+        clean = _rf.snapshot(det, _rf.run_chunks(det, clean_chunks))
         with warnings.catch_warnings():
             warnings.simplefilter("ignore")
             got = _rf.snapshot(det, _rf.run_chunks(det, chunks))
@@ -276,7 +279,9 @@ def series_index(case, ctx):
             d2 = _rf.make(det)
             d2.process(ser.iloc[:h]).process(ser.iloc[h:])
             c = _rf.snapshot(det, d2)
-            if a != c:
-                k = next(k for k in a if a[k] != c[k])
-                raise Violation("%s: Series (%s index) fed in two chunks gives %s %r, value array %r" % (det, case["index_kind"], k, c[k], a[k]),
+            # compared with the value array fed in the SAME two chunks (chunk independence itself is C01)
+            a2 = _rf.snapshot(det, _rf.run_chunks(det, [sig[:h], sig[h:]]))
+            if a2 != c:
+                k = next(k for k in a2 if a2[k] != c[k])
+                raise Violation("%s: Series (%s index) fed in two chunks gives %s %r, value array fed in the same chunks %r" % (det, case["index_kind"], k, c[k], a2[k]),
                                 bucket="series2:%s:%s" % (det, k))
